@@ -28,6 +28,9 @@ ALPHA4 = [('inc', None), ('dec', 5), ('put', -9), ('reset', None)]
 KEY = "<Counter 'c'>"
 
 
+EXTRA_NAMES = ['etype', 'source', 'trigger', 'data', 'x', 'previous', 'handler']
+
+
 def scenarios(rng, tier):
     # initdef None = the keyword is omitted (the documented default 0 applies)
     inits = [(0, None), (3, None), (-4, None), (12, 5), (3, -11), (None, None), (None, 7)]
@@ -73,11 +76,21 @@ def scenarios(rng, tier):
                 ops.append([k, num() if rng.random() < 0.9 else None])
             else:
                 ops.append([k, num() if rng.random() < 0.7 else None])
-        yield {'mod': mod, 'initdef': num() if rng.random() < 0.9 else None,
+        scn = {'mod': mod, 'initdef': num() if rng.random() < 0.9 else None,
                'restored': num() if rng.random() < 0.4 else None, 'ops': ops}
+        if rng.random() < 0.25:
+            # additional data items, which a Counter ignores -- whatever they are called (no reserved names:
+            # 'etype' is the name of event()'s own first parameter, 'source'/'trigger' are set by senders)
+            scn['extras'] = [{k: rng.choice(['x', 'src'] if k == 'source' else [0, 7, 'x', None])      # a source must be a string (C14)
+                              for k in rng.sample(EXTRA_NAMES, rng.choice([0, 1, 1, 2]))}
+                             for _ in ops]
+        yield scn
 
 
 def shrink(scn):
+    if scn.get('extras'):
+        yield {k: v for k, v in scn.items() if k != 'extras'}
+        return
     yield from shrink_ops(scn)
     if scn.get('restored') is not None:
         yield {**scn, 'restored': None}
@@ -105,6 +118,8 @@ def run_impl(scn):
             data = {}
             if arg is not None:
                 data['value' if op == 'put' else 'amount'] = arg
+            if scn.get('extras'):
+                data.update(scn['extras'][len(steps) - 1])
             kind, val = sim.send(cnt, etype, **data)
             lines.append(f"counter {'reset_ev' if op == 'reset' else op + ' ' + enc_opt(arg)}")
             if kind == 'ret':
